@@ -369,6 +369,29 @@ class Body:
         d = self.dominators()
         return b in d and a in d[b]
 
+    def rpo(self):
+        """block -> position in a reverse post-order of the normal-edge CFG (a program order that
+        respects dominance and ignores back edges; independent of block numbering)"""
+        if getattr(self, "_rpo", None) is None:
+            seen = set()
+            post = []
+            stack = [(0, iter(self.succs(0)))]
+            seen.add(0)
+            while stack:
+                b, it = stack[-1]
+                adv = False
+                for s in it:
+                    if s not in seen:
+                        seen.add(s)
+                        stack.append((s, iter(self.succs(s))))
+                        adv = True
+                        break
+                if not adv:
+                    post.append(b)
+                    stack.pop()
+            self._rpo = {b: i for i, b in enumerate(reversed(post))}
+        return self._rpo
+
     def calls(self):
         """iterate (block index, Term) for every call terminator in non-cleanup blocks"""
         for b in self.blocks:
